@@ -53,6 +53,17 @@ TRUSTED_BASE = [
     "observed only through `in`, `.add` and `sorted` (nothing that depends on CPython's iteration order); sorted() on str is code-point order "
     "= Lean's < on String; d.get(k, default) on a dict with a str key; self.graph is the value __init__ stored (values, not references: a caller "
     "mutating the graph dict during expand is not represented); the equalities speak about a dict[str, list[str]] graph and list[str] | None roles",
+    "for the translated METHODS of DefaultInMemoryCache (C15; harness/pytolean_methods.py, lean/Rbacx/Model/PyOrdDict.lean, validated against the "
+    "real cache on every run by Run/SrcEvalCache.lean) the trusted readings are: state-passing — self._data is THE state, an insertion-ordered "
+    "association list with string keys rebound by every statement that changes it, self._maxsize is a parameter, a method returns the dict "
+    "and how the call ended (returned value / raised KeyError with the dict at that moment); `with self._lock:` is transparent (mutual "
+    "exclusion is C15_locked's and c15_atomic_ops' business); time.monotonic() is external and clock readings are passed in call-site "
+    "order, one integer parameter per syntactic call site (a site inside a loop is rejected), float(int) is the same exact number "
+    "(integer clock, ttl None or an int: now + float(ttl) is exact in CPython too); the OrderedDict meanings get / pop(k, None) / "
+    "d[k] = v (replace in place, else append) / move_to_end / popitem(last=False) / clear / len / list(d.items())[:N] are those of "
+    "PyOrdDict.lean on lists without a repeated key; `while …: popitem(last=False)` is fuel-bounded recursion with fuel len(d)+1 "
+    "(proved sufficient: whilePopFirst_fuel); an instance of a dataclass no method ever assigns to is the record of its fields; "
+    "by hand remain the RLock and thread interleavings (Model/CacheLock.lean) and __init__ (int(maxsize), the empty OrderedDict)",
 ]
 
 
